@@ -1,5 +1,20 @@
+import hashlib as _hl11, os as _os11
+
+_verif11 = _os11.path.dirname(_os11.path.dirname(_os11.path.dirname(_os11.path.abspath(__file__))))
+
+
+def _conicproj_digest():
+    # the harness compiles $GV_REPO/tools/ConicProj.cpp into itself: make the harness cache key depend on its text
+    p = _os11.path.join(_os11.environ.get("GV_REPO", "/repo"), "tools", "ConicProj.cpp")
+    try:
+        return _hl11.sha256(open(p, "rb").read()).hexdigest()[:16]
+    except OSError:
+        return "0"
+
+
 PROPS["C11"] = dict(
-    harnesses=[dict(name="C11", procs_quick=2, procs_thorough=16, extra=["-lquadmath"])],
+    harnesses=[dict(name="C11", procs_quick=2, procs_thorough=16,
+                    extra=["-lquadmath", "-I" + _os11.path.join(_verif11, "harness", "C11_tools"), "-DGV_TOOLS_DIGEST=0x" + _conicproj_digest()])],
     gens=[],
     rule=("configurations: class ∈ {polar stereographic, Lambert conformal conic, Albers} × ellipsoid f ∈ {WGS84, 0, 0.1, −0.1, 1/150} (a ∈ {WGS84, 6.4e6, 1, "
           "6378388}) × scale k ∈ {1, 0.9996, 0.994, 0.5, 2, 1.25} × constructor stratum {one parallel; two equal; 1e-6…1e-12 apart; ±90 (polar/azimuthal); 0 "
